@@ -6,10 +6,13 @@
          DIFF class=WRITE       written bytes differ outside the time fields
          DIFF class=WRITE_TIME  written bytes differ only inside the time fields
          DIFF class=READ        events returned by the reader differ
+         DIFF class=READ_SHORT  ... on a stream that is not a whole number of records
      - judges the REAL outputs with the extracted specification checkers
        (WireSpec.v: check_write, check_roundtrip, check_reader), which use
        neither the model's encoder nor its decoder:
          MONITOR clause=C18.length | C18.record | C18.syn | C18.roundtrip | C18.reader
+     - compares every entry of the regenerated key table with the pinned kernel
+       numbering:  MONITOR clause=C18.codes
      - on R lines checks that the bytes the harness built through
        libc::input_event are the bytes the specification gives the records
        (ASSUMPTION-FAIL otherwise: the layout assumed by model and spec is not
@@ -125,10 +128,10 @@ let () =
     end in
   let diff cls kind input impl model =
     incr diffs;
-    Printf.printf "DIFF class=%s kind=%s input=%s impl=%s model=%s\n" cls kind (clip input) (clip impl) (clip model) in
+    Printf.printf "DIFF class=%s kind=%s input=%s impl=%s model=%s\n" cls kind input (clip impl) (clip model) in
   let monitor clause kind input observed expected =
     incr hits;
-    Printf.printf "MONITOR clause=%s kind=%s input=%s observed=%s expected=%s\n" clause kind (clip input) (clip observed) (clip expected) in
+    Printf.printf "MONITOR clause=%s kind=%s input=%s observed=%s expected=%s\n" clause kind input (clip observed) (clip expected) in
   (try
      while true do
        let line = input_line ic in
@@ -213,8 +216,11 @@ let () =
               note_case ("X " ^ fhex) (fed <> []);
               let (rp, revs) = parse_read_result fread in
               let (mp, mevs) = model_read fed in
+              (* a stream that is not a whole number of records never comes out of an evdev
+                 node: differences there are reported in a class C18 does not observe *)
               if (rp, revs) <> (mp, mevs) then
-                diff "READ" "X" ("bytes:" ^ fhex) (read_result_str (rp, revs)) (read_result_str (mp, mevs));
+                diff (if List.length fed mod 24 = 0 then "READ" else "READ_SHORT") "X" ("bytes:" ^ fhex)
+                  (read_result_str (rp, revs)) (read_result_str (mp, mevs));
               if !xsamples < 1 && List.length fed > 30 && List.length fed < 80 && (incr xsamples; true) then
                 samples := Printf.sprintf "raw bytes{%s} reader_returns{%s}" fhex (evs_str revs) :: !samples;
               (* C18_reader_never_panics *)
@@ -229,6 +235,14 @@ let () =
   let codes = List.map int_of_n x_key_codes in
   let missing = List.filter (fun c -> not (Hashtbl.mem keys_single (c, true) && Hashtbl.mem keys_single (c, false))) codes in
   let foreign_single = Hashtbl.fold (fun (c, _) () acc -> if List.mem c codes then acc else c :: acc) keys_single [] in
+  (* the key table against the pinned kernel numbering, entry by entry *)
+  List.iter (fun ((id, c), _) ->
+      let ids = string_of_chars id and ci = int_of_n c in
+      (match x_kernel_code_of_ident id with
+       | Some kc when int_of_n kc <> ci ->
+         monitor "C18.codes" "K" ids (Printf.sprintf "KeyCode::%s=%d" ids ci) (Printf.sprintf "kernel:%d" (int_of_n kc))
+       | _ -> ());
+      if ci >= 65536 then monitor "C18.codes" "K" ids (Printf.sprintf "KeyCode::%s=%d" ids ci) "below:65536") x_key_table;
   Printf.printf "TABLE ok=%d matched=%d keys=%d unmatched=[%s] singles_missing=%d singles_outside_table=%d\n"
     (if x_table_ok then 1 else 0) (int_of_nat x_matched_count) (List.length codes)
     (String.concat "," (List.map string_of_chars x_unmatched_idents))
